@@ -20,8 +20,8 @@ import (
 func init() {
 	register(&Check{
 		ID: "C20", Level: "exploration", QuickSecs: 170, ThoroughSecs: 1200,
-		Rule:        "(a) all texts printed from reference ASTs over the bootstrap subset (char/string/raw literals with i, classes, any, rule references, & ! ? * +, labels, actions, nested sequences/choices, display names) up to N nodes (quick 4, thorough 5) in the canonical spelling and with every single spelling deviation of {4 definition operators, ';' separators, literal quotings, escapes, full parentheses, code block bodies with nested braces/strings/comments}: whenever the hand-written bootstrap front-end (bootstrap.Parser, linked as a library) accepts a text, the generated front-end (hook ast mode) must accept it and build a structurally identical AST (positions and display-name quoting aside). (b) the whole working tree is copied to a scratch directory and 'make -B all' re-runs the three bootstrap stages and regenerates every checked-in artifact with the Makefile's flags; every regenerated file must be byte-identical to the tree (complete, finite; plain regeneration, not exploration). Non-trivial = texts accepted by the bootstrap front-end with >= 3 nodes, plus one per regenerated artifact.",
-		Assumptions: []string{"bootstrap.Parser defines membership in the bootstrap subset (texts it rejects are skipped and counted)", "GNU make and the Makefile's own recipes perform the regeneration"},
+		Rule:        "(a) all texts printed from reference ASTs over the bootstrap subset (char/string/raw literals with i, classes, any, rule references, & ! ? * +, labels, actions, nested sequences/choices, display names) up to N nodes (quick 4, thorough 5) in the canonical spelling and with every single spelling deviation of {4 definition operators, ';' separators, literal quotings, escapes, full parentheses, code block bodies with nested braces/strings/comments}: the hand-written bootstrap front-end (bootstrap.Parser, linked as a library) must accept every text (except the spellings it is known not to cover: comments between rules, braces inside string/rune literals of code blocks - skipped and counted), the generated front-end (hook ast mode) must accept it too and both must build a structurally identical AST (positions and display-name quoting aside). (b) the whole working tree is copied to a scratch directory and 'make -B all' re-runs the three bootstrap stages and regenerates every checked-in artifact with the Makefile's flags; every regenerated file must be byte-identical to the tree (complete, finite; plain regeneration, not exploration). Non-trivial = texts accepted by the bootstrap front-end with >= 3 nodes, plus one per regenerated artifact.",
+		Assumptions: []string{"the bootstrap subset is what grammar/bootstrap.peg describes; the families only use its constructs; comments between rules and braces inside literals of code blocks are not covered by the hand-written scanner and are skipped (counted)", "GNU make and the Makefile's own recipes perform the regeneration"},
 		Explanation: "part (b) is an exhaustive regeneration of the finite artifact set, not a state-space search",
 		Run:         runC20,
 		Post:        postC20,
@@ -159,7 +159,32 @@ func runC20(c *ShardCtx) {
 		c.Res.Evaluations++
 		bg, berr := bootstrap.NewParser().Parse("", strings.NewReader(text))
 		if berr != nil {
-			c.Res.Counters["not_in_bootstrap_subset"]++
+			if os.Getenv("C20_DEBUG") != "" {
+				c.Res.Counters["reject:"+names+" :: "+strings.SplitN(berr.Error(), "\n", 2)[0]]++
+			}
+			// the hand-written front-end does not skip comments between rules and does not
+			// look inside string / rune literals of code blocks: those spellings are outside
+			// its subset. Every other text of the families is made of constructs of
+			// grammar/bootstrap.peg only, so it has to be understood.
+			outside := false
+			for _, d := range ds {
+				if strings.Contains(d.name, "//") || strings.Contains(d.name, "/*") || (strings.HasPrefix(d.name, "code style") && d.name != "code style 1") {
+					outside = true
+				}
+			}
+			if outside {
+				c.Res.Counters["not_in_bootstrap_subset"]++
+				return
+			}
+			r, err := c.W.Srv.Call(&hook.Req{Mode: "ast", Text: []byte(text)})
+			if err != nil {
+				panic(&core.HarnessError{Msg: err.Error()})
+			}
+			if r.Err != "" || r.Panic != "" || r.Hung {
+				c.Res.Counters["rejected_by_both_front_ends"]++
+				return
+			}
+			c.Report(Violation{Desc: "the hand-written bootstrap front-end rejects a text of its subset that the generated front-end accepts: " + strings.SplitN(berr.Error(), "\n", 2)[0], Grammar: text, Opts: names}, "")
 			return
 		}
 		c.Res.Counters["bootstrap_accepts"]++
